@@ -50,6 +50,10 @@ def poolOp (m : MPool) (toks : List String) : Option (MPool × String) :=
         else endSlot { m with p := { m.p with streams := m.p.streams.mapIdx (fun j n => if j == i then n + 1 else n) } } "ok"
       else some (m, "nonode")
     | none => none
+  | ["cleanupbg", _] =>
+    -- the pass holds the pool lock until it is done: requests that arrive meanwhile see its result
+    let m1 := runTicks (ticksFuel m (m.now + 7)) m (m.now + 7)
+    endSlot { m1 with p := m1.p.cleanup (m.now + 7) } "ok"
   | ["cleanup"] =>
     -- runs 7 ms into the slot: periodic ticks before that instant come first
     let m1 := runTicks (ticksFuel m (m.now + 7)) m (m.now + 7)
